@@ -54,6 +54,10 @@ claim('C07',
       'The real Reader (and the scanner on top of it) is executed on every delivery form with the chunk schedule as solver variables: a text stream whose first reads return k1, k2 (k3) characters over every str of up to 2 (3) characters and over a 14-document corpus (CR LF pairs, NEL, BOM, multi-byte and astral characters, a non-printable character); byte streams of the corpus in UTF-8, UTF-8+BOM, UTF-16-LE/BE+BOM with symbolic read sizes (splits inside multi-byte sequences and surrogate pairs, between CR and LF, after the first byte); an invalid byte injected at a solver-chosen offset (same ReaderError position however the input is chunked); every byte string of up to 2 (3) bytes through a split stream; documents straddling the 4096 refill boundary. Tokens, values, marks and errors must equal those of the str / whole-bytes form.',
       'Py leg only. Trusted: CrossHair/z3; M4 pure-Python codec models in place of the C codecs (differentially self-tested incl. error start/end/reason); messages compared through the M1 placeholder. How many tokens are handed out before a reader error is not compared (an in-memory str is checked up front, a stream block by block).')
 
+claim('C12',
+      'Streams of 1-3 documents are pushed through the real dump_all / serialize_all / emit and read back with load_all / compose_all / parse, with everything that decides a document boundary as a solver variable: the kind of each root (16 value kinds incl. empty and open-ended plain scalars, keep-chomped block text, ---/... look-alikes, empty and one-element collections, None, a str of one free character over all code points; 8 node kinds incl. the empty null scalar; 8 event kinds), the explicit start/end flags (per document at event level), %YAML / %TAG, default_style, canonical, line_break. Exactly n equal documents must come back, and the text of the first document must be a prefix of the stream whatever follows.',
+      'Py leg only. Values are compared for dump_all, node graphs for serialize_all, events for emit. Fixed finding F5 (empty root scalar with an implicit tag lost its document start marker) was found here.')
+
 NA = {
  'C06': 'every comparison is between two artefacts of libyaml (a compiled system .so behind a Cython binding that cannot be rebuilt offline); symbolic values are realised at the extension boundary, so no solver variable survives into the code under comparison',
  'C20': 'asymptotic growth over input sizes: bounded symbolic execution cannot observe doubling and an unbounded cost argument is proof-assistant work; the anchored look-ahead mechanisms are decided as one-step invariants under C09/C18',
